@@ -249,10 +249,13 @@ class Ctx:
             if not ok:
                 raise ToolError("trace validation %s on %s failed (rc=%s):\n%s" %
                                 (module, path, rc, "\n".join(out.splitlines()[-40:])))
-            rej = [int(x) for x in re.findall(r'<<"REJECT", (\d+)', out)]
-            hp = [int(x) for x in re.findall(r'<<"HEAP", (\d+)', out)]
-            for m in re.findall(r'<<"BAD", \{([^}]*)\}', out):
-                rej += [int(x) for x in m.replace(" ", "").split(",") if x]
+            # TLC pretty-prints long values over several lines (`<< "BAD",\n   { 44,\n     45, ...`): match across whitespace
+            rej = [int(x) for x in re.findall(r'<<\s*"REJECT",\s*(\d+)', out)]
+            hp = [int(x) for x in re.findall(r'<<\s*"HEAP",\s*(\d+)', out)]
+            for m in re.findall(r'<<\s*"BAD",\s*\{([^}]*)\}', out, re.S):
+                rej += [int(x) for x in re.split(r"[\s,]+", m) if x]
+            for m in re.findall(r'<<\s*"HEAPSET",\s*\{([^}]*)\}', out, re.S):
+                hp += [int(x) for x in re.split(r"[\s,]+", m) if x]
             return path, nlines, nexecs, sorted(set(rej)), sorted(set(hp)), dt
 
         with cf.ThreadPoolExecutor(max_workers=jobs) as ex:
